@@ -473,7 +473,9 @@ class BlackbirdProgram:
                     # a free parameter; it appears by value in the operations
                     continue
 
-                var_type = inv_type_map[np.array(v).dtype.kind]
+                # a Python integer outside the 64-bit range is still an int variable
+                is_int = isinstance(v, int) and not isinstance(v, bool)
+                var_type = "int" if is_int else inv_type_map[np.array(v).dtype.kind]
                 array_string = ""
                 if isinstance(v, np.ndarray):
                     for row in v:
